@@ -15,7 +15,7 @@ import (
 // cons (consumer configuration), cap (Events capacity, -1 = NewWatcher).
 
 var CtlHists = []string{"idle", "mixed3", "burst6", "mvrm", "mvrmdir", "rmadd", "readerr", "shortread", "eof", "overflow"}
-var CtlCtls = []string{"close", "add-close", "remove-close", "list-close", "close||close", "close||add", "close||remove", "close||list", "add||remove"}
+var CtlCtls = []string{"close", "add-close", "remove-close", "list-close", "close||close", "close||add", "close||remove", "close||list", "add||remove", "list"}
 var CtlCons = []string{"none", "events", "errors", "both", "both-stop1", "both-stop2"}
 
 func init() {
@@ -152,6 +152,8 @@ func ctlScenario(p map[string]any) *Scenario {
 			second(func() { x.WatchList(w) })
 			x.Close(w)
 			probe()
+		case "list":
+			x.WatchList(w)
 		case "add||remove":
 			second(func() { x.Remove(w, "w/d") })
 			x.Add(w, "w/d2")
@@ -181,6 +183,32 @@ func ctlScenario(p map[string]any) *Scenario {
 			out = append(out, Violation{Property: "C05",
 				Signature: fmt.Sprintf("deadlock hist=%s cons=%s: %s never return", hist, cons, strings.Join(uniq(calls), ",")),
 				Detail:    fmt.Sprintf("calls that never returned: %v; blocked threads: %v", e.Pending, who)})
+			if hist == "overflow" {
+				out = append(out, Violation{Property: "C10",
+					Signature: fmt.Sprintf("after a queue overflow (cons=%s) the Watcher no longer accepts control calls: %s never return", cons, strings.Join(uniq(calls), ",")),
+					Detail:    fmt.Sprintf("calls that never returned: %v; blocked threads: %v", e.Pending, who)})
+			}
+			for _, cl := range calls {
+				if cl == "Close" {
+					out = append(out, Violation{Property: "C13",
+						Signature: fmt.Sprintf("Close never returned (hist=%s cons=%s): descriptor, kernel watches and reader goroutine are never released", hist, cons),
+						Detail:    fmt.Sprintf("blocked threads: %v; descriptors still open: %v", who, e.LeftOpen)})
+					break
+				}
+			}
+		}
+		// C10: ordinary activity never puts a value on Errors
+		// (judged up to the first Close call: C10 quantifies over filesystem
+		// histories and reader speeds, not over a Close racing the clean-up)
+		if hist != "readerr" && hist != "shortread" && hist != "eof" {
+			for _, o := range x.Log {
+				if o.Kind == "call" && o.What == "Close" {
+					break
+				}
+				if o.Kind == "error" && !(hist == "overflow" && o.Err == "ErrEventOverflow") {
+					out = append(out, Violation{Property: "C10", Signature: fmt.Sprintf("value on Errors for benign history %s: %s", hist, o.Err), Detail: o.What})
+				}
+			}
 		}
 		// C06: nothing Go would panic on
 		if e.Failure != "" {
